@@ -61,7 +61,64 @@ def prod_upload(old_doc, new_doc, path="/etc/sonic/config_db.json"):
         annet.deploy.get_deployer = saved
 
 
+def prod_old_new(old_doc, fragment, acl, acl_safe, filters, use_safe, path="/etc/sonic/config_db.json"):
+    """annet.gen._old_new_per_device for a file device with one JSONFragment generator; returns the fragment the generator object produced
+    and the new document of the run (the safe one with use_safe)"""
+    import copy
+    import types
+    from annet import gen
+    from annet.generators import JSONFragment
+    from .. import genrun, annetenv as E
+    E.init()
+
+    class PcDev(genrun.Dev):
+        def is_pc(self):
+            return True
+
+    frag = copy.deepcopy(fragment)
+
+    class Frag(JSONFragment):
+        TAGS = []
+
+        def path(self, device):
+            return path
+
+        def acl(self, device):
+            return list(acl)
+
+        def acl_safe(self, device):
+            return list(acl_safe)
+
+        def run(self, device):
+            yield copy.deepcopy(frag)
+
+        def reload(self, device):
+            return "config reload -y"
+    dev = PcDev(E.hwview("PC", ""), "pcprod")
+    g = Frag(genrun.STORAGE)
+    produced = g(dev)
+    args = types.SimpleNamespace(no_acl=False, acl_safe=use_safe, fail_on_empty_config=False, profile=False, no_acl_exclusive=False,
+                                 generators_context=None, required_packages_check=False, filter_acl="stdin" if filters else "", filter_ifaces=[],
+                                 filter_peers=[], filter_policies=[])
+    dg = gen.DeviceGenerators()
+    dg.partial[dev] = []
+    dg.ref[dev] = []
+    dg.entire[dev.fqdn] = []
+    dg.json_fragment[dev] = [g]
+    files = gen.DeviceDownloadedFiles(json_fragment_files={path: copy.deepcopy(old_doc)})
+    ctx = gen.OldNewDeviceContext(config="running", args=args, downloaded_files={dev: files}, failed_files={}, running={}, failed_running={},
+                                  no_new=False, stdin={"filter_acl": "\n".join(filters), "config": None}, add_annotations=False, add_implicit=False,
+                                  do_files_download=True, gens=dg, fetched_packages={}, failed_packages={}, device_count=1, do_print_perf=False)
+    filterer = types.SimpleNamespace(for_ifaces=lambda d, i: "", for_peers=lambda d, p: "", for_policies=lambda d, p: "")
+    res = gen._old_new_per_device(ctx, dev, filterer)
+    if res.err is not None:
+        raise res.err
+    files_new = res.safe_new_json_fragment_files if use_safe else res.new_json_fragment_files
+    return {"fragment": produced, "new": files_new[path][0]}
+
+
 def run(ctx):
+    import copy as _copy
     import jsonpatch
     from annet.annlib import jsontools as jt
     quick = ctx.tier == "quick"
@@ -138,8 +195,8 @@ def run(ctx):
                 d[k] = rdoc(depth - 1)
             else:
                 # leaves of fragment / filter documents are plain scalars: glob pointers address OBJECT paths (the property's schema clause);
-                # arrays are exercised by the patch tier (annet's resolver would also walk into arrays and strings, outside that domain)
-                d[k] = rnd.choice([1, 2, 3, True, None])
+                # arrays are exercised by the patch tier (annet's resolver also walks into arrays, outside that domain; a string is a scalar: 5a30504)
+                d[k] = rnd.choice([1, 2, 3, True, None, "up", "None", "10.0.0.1/24"])      # generators hand over every scalar as text
         return d
 
     def schema_fix(a, b):
@@ -185,11 +242,65 @@ def run(ctx):
                 rec.update({"out": enc(None), "raised": True, "exc": repr(e)})
             recs.append(rec)
             ctx.count()
+    # ---------------- the production path for file devices: annet.gen._old_new_per_device with a real JSONFragment generator, the device's
+    # document downloaded, with and without --acl-safe (the generator's narrower pointer list) and --filter-acl (pointer patterns that cut
+    # both documents down).  Without a filter the result is judged as a merge; with one, as the filter applied to the merge.
+    TABLES = ["PORT", "VLAN", "BGP_NEIGHBOR", "ACL|RULE"]
+
+    def table_doc(p_tab=0.8):
+        d = {}
+        for tname in TABLES:
+            if rnd.random() < p_tab:
+                d[tname] = {"%s%d" % (tname[0].lower(), i): rnd.choice(["up", "down", "9100", {"mtu": rnd.choice(["1500", "9100"]), "alias": "x"}])
+                            for i in rnd.sample(range(1, 5), rnd.randint(1, 3))}
+        return d
+
+    def table_pats(n):
+        out = []
+        for _ in range(n):
+            tname = rnd.choice(TABLES)
+            out.append(rnd.choice([[tname], [tname, "*"], [tname, "%s[12]" % tname[0].lower()], [tname, "*", "mtu"], ["*", "%s1" % tname[0].lower()]]))
+        return out
+    for k in range(240 if quick else 4000):
+        if k % 3 == 0:
+            old = rdoc(2)
+            f = schema_fix(old, rdoc(2))
+            acl = [rpat() for _ in range(rnd.randint(1, 3))]
+            filt = [rpat()[:rnd.randint(1, 2)] for _ in range(rnd.randint(1, 2))] if k % 2 else []
+        else:               # documents shaped like a switch's config_db: tables of named entries
+            old = table_doc()
+            f = schema_fix(old, table_doc())
+            acl = table_pats(rnd.randint(1, 3))
+            filt = table_pats(rnd.randint(1, 2)) if k % 2 else []
+        safe = [p for p in acl if rnd.random() < 0.5] or acl[:1]
+        use_safe = k % 4 >= 2
+        txt = lambda a: ["/" + "/".join(esc(x) for x in p) for p in a]
+        try:
+            got = prod_old_new(old, f, txt(acl), txt(safe), txt(filt), use_safe)
+        except Exception as e:
+            recs.append({"id": "prodgen-%d" % len(recs), "kind": "filter", "d": enc(old), "out": enc(None), "raised": True, "acl": [], "src": [old, f],
+                         "exc": "_old_new_per_device: " + repr(e)})
+            continue
+        pats = safe if use_safe else acl
+        fstr = got["fragment"]                                   # the fragment as the generator object hands it over (scalars as text)
+        # (with a filter the safe document is merged into the device's document as the filter left it; the full one into the raw document)
+        base = jt.apply_acl_filters(_copy.deepcopy(old), txt(filt)) if (filt and use_safe) else _copy.deepcopy(old)
+        merged = jt.apply_json_fragment(base, _copy.deepcopy(fstr), txt(pats))
+        if filt:
+            rec = {"id": "prodgen-%d" % len(recs), "kind": "filter", "d": enc(merged), "out": enc(got["new"]), "raised": False,
+                   "src": [merged, txt(filt)], "acl_text": txt(filt)}
+        else:
+            rec = {"id": "prodgen-%d" % len(recs), "kind": "fragment", "old": enc(old), "f": enc(fstr), "acl": [[list(x) for x in p] for p in pats],
+                   "r": enc(got["new"]), "r2": enc(jt.apply_json_fragment(_copy.deepcopy(got["new"]), _copy.deepcopy(fstr), txt(pats))), "raised": False,
+                   "inputsKept": True, "src": [old, fstr, txt(pats)]}
+        recs.append(rec)
+        ctx.count()
+        if got["new"] != old:
+            ctx.nontrivial(json.dumps(["prodgen", old, f, txt(acl), txt(safe), txt(filt), use_safe]))
     # ---------------- two generators on one file, as annet merges them (RunGeneratorResult.new_json_fragment_files): full pass, safe pass,
     # full pass again on the same result object; every pass is judged as "second fragment merged into (first fragment merged into old)"
     from annet.generators.result import RunGeneratorResult
     from annet.types import GeneratorJSONFragmentResult
-    import copy as _copy
     for _ in range(300 if quick else 6000):
         old = rdoc(2)
         fa, fb = schema_fix(old, rdoc(2)), schema_fix(old, rdoc(2))
